@@ -11,8 +11,9 @@ Generated data
     is matched against a fixed set of shapes and becomes one or more operations (in EVALUATION
     order - e.g. `race_fallback.write().store(Some(Prev::detect(signal)?))` is lock, detect?, store);
     `?` placement is part of the operation.  A statement of an unknown shape raises TranslateError.
-  * `params : fn_id -> list (res * bool)`  resources a public entry point receives (flag Arc,
-    descriptor; bool = owned by a Rust value with a destructor, false = raw number)
+  * `params : fn_id -> list (res * bool)`  resources a public entry point receives (the action
+    closure `action: F` of the registry's own entry points, flag Arc, descriptor; bool = owned by a
+    Rust value with a destructor, false = raw number)
   * facts checked while parsing (emitted as booleans the proofs consume): WakeFd's Drop closes the
     descriptor, `unregister`/`unregister_signal` publish only `if replace`, the id table of an iterator
     instance has MAX_SIGNUM entries, `low_level::register` is the registry's `register`,
@@ -455,7 +456,7 @@ def translate(repo, consts):
     o.append('From Coq Require Import ZArith NArith List.')
     o.append('Import ListNotations. Open Scope Z_scope.')
     o.append('Inductive fn_id := ' + ' | '.join(FN_IDS) + '.')
-    o.append('Inductive res := RFlag | RFd | RArcPending | RArcWrite | RInstance.')
+    o.append('Inductive res := RAction | RFlag | RFd | RArcPending | RArcWrite | RInstance.')
     o.append('(* one operation per recognised statement part, in evaluation order; bool = followed by `?` *)')
     o.append('Inductive sop :=')
     o.append('  | OAssertNotForbidden | OCall (f : fn_id) | OCallQ (f : fn_id)')
@@ -483,6 +484,7 @@ def translate(repo, consts):
     o.append('  | FFlagRegister | FFlagRegisterUsize | FFlagCondShutdown | FFlagCondDefault => [(RFlag, true)]')
     o.append('  | FPipeRegister => [(RFd, true)]')
     o.append('  | FPipeRegisterRaw => [(RFd, false)]')
+    o.append('  | FRegister | FRegisterSigaction | FRegisterSignalUnchecked | FRegisterUnchecked => [(RAction, true)]')
     o.append('  | _ => []')
     o.append('  end.')
     o.append('Definition wakefd_drop_closes : bool := %s.' % b(P['wakefd_drop_closes']))
